@@ -148,6 +148,11 @@ func (w *histWorld) Gen(seed uint64, tier string) *Plan {
 			// is what it may leave behind - a position hint, a memo - for the mutations that follow
 			op = s.GenRead(r, id)
 			op.N = "R:" + op.N
+		case id > 0 && !w.count && r.P(1, 16) && !strings.HasPrefix(p.Ops[id-1].N, "R:") && p.Ops[id-1].N != "Fill" && p.Ops[id-1].N != "FromJSON":
+			// the same call twice in a row (the second one usually has nothing left to do)
+			op = p.Ops[id-1]
+			op.ID = id
+			op.A = slices.Clone(op.A)
 		default:
 			op = s.GenOp(r, id, clients[ci])
 		}
